@@ -244,3 +244,14 @@ func RunCase(entries map[string]any, c *Case) (o *Outcome) {
 	fv.Call(in)
 	return
 }
+
+// EnvSet/EnvGet/EnvBool talk to the symbolic executor's nondeterministic environment model
+// (flags, files, front end and generator outcomes); they do nothing natively.
+func EnvSet(key, val string)   {}
+func EnvGet(key string) string { return "" }
+func EnvBool(key string) bool  { return false }
+
+// LastPanic is the message of the panic most recently caught by CatchPanic (symbolic executor only).
+func LastPanic() string { return "" }
+
+func EnvInt(key string) int { return 0 }
